@@ -96,6 +96,9 @@ def check_case(case):
         except Exception:  # noqa - a missing title attribute legitimately fails
             pass
         victim.i = saved + 50
+        for v in vs:
+            if v is not victim:
+                v.i = v.i + 7      # the members rendered before the failure now have other titles
     info = _check_render(case, vs, ls, u, case["opt"], keep)
     if render.perturb(case, vs, ls, u):
         # a second rendering of the same universe after attributes / membership changed must show the NEW state;
